@@ -1765,43 +1765,50 @@ class PseudoNetCDFFile(PseudoNetCDFSelfReg, object):
 
                     # Get a new reference date in yearlike
                     crefdate = datetime(yearlike, 1, 1, tzinfo=utc)
-                    if refdate.month != 1 or refdate.day != 1:
-                        # Get start date in yearlike
-                        refcdate = datetime(
-                            yearlike, refdate.month, refdate.day, tzinfo=utc)
-                        # Calculate delta in years
-                        addyears = (
-                            crefdate - refcdate).total_seconds() / yearseconds
-                    else:
-                        addyears = 0
-                    # Convert time to fractional years, including change in
-                    # reference
-                    incrdenom = {'years': 1, 'days': yeardays,
-                                 'hours': yeardays * 24,
-                                 'minutes': yeardays * 24 * 60,
-                                 'seconds': yeardays * 24 * 60}[unit]
-                    fracyearincrs = time[:] / incrdenom + addyears
-                    # Split into years and days
-                    yearincrs = np.array(fracyearincrs // 1).astype('i')
-                    dayincrs = (fracyearincrs % 1) * yeardays
+                    # Offset of the reference date within its (fixed
+                    # length) year, in seconds
+                    refcdate = datetime(
+                        yearlike, refdate.month, refdate.day, refdate.hour,
+                        refdate.minute, refdate.second, tzinfo=utc)
+                    refseconds = (refcdate - crefdate).total_seconds()
+                    # Convert time to seconds since the start of the
+                    # reference year
+                    unitseconds = {'years': yearseconds, 'days': 24 * 3600,
+                                   'hours': 3600, 'minutes': 60,
+                                   'seconds': 1}[unit]
+                    totseconds = (np.asarray(time[:], dtype='d') *
+                                  unitseconds + refseconds)
+                    # Split into whole (fixed length) years and the
+                    # remainder within the year
+                    yearincrs = np.floor(
+                        totseconds / yearseconds).astype('i')
+                    dayincrs = (totseconds - yearincrs * yearseconds) / 86400.
                     # Add days to the calendar year reference
                     cdays = [crefdate + timedelta(days=dayinc)
                              for dayinc in dayincrs]
-                    try:
-                        # Combine calendar specific month and day with new year
-                        out = np.array([
-                            datetime(refyear + yearinc, cday.month,
-                                     cday.day, tzinfo=utc)
-                            for yearinc, cday in zip(yearincrs, cdays)])
-                    except Exception:
-                        warn(('Years calculated from %d day year, but ' +
-                              'month/days calculated for actual year. ' +
-                              'Usually means data has Feb 29th in a non ' +
-                              'leap year') % yeardays)
-                        out = np.array([
-                            datetime(refyear + yearinc, 1, 1, tzinfo=utc) +
-                            timedelta(days=float(dayinc))
-                            for yearinc, dayinc in zip(yearincrs, dayincrs)])
+                    # Combine calendar specific month and day with new year
+                    out = []
+                    for yearinc, cday, dayinc in zip(
+                        yearincrs, cdays, dayincrs
+                    ):
+                        try:
+                            outdate = datetime(
+                                refyear + yearinc, cday.month, cday.day,
+                                cday.hour, cday.minute, cday.second,
+                                cday.microsecond, tzinfo=utc)
+                        except ValueError:
+                            # only this date has no counterpart in the
+                            # actual year (Feb 29th in a non leap year)
+                            warn(('Years calculated from %d day year, but ' +
+                                  'month/days calculated for actual year. ' +
+                                  'Usually means data has Feb 29th in a ' +
+                                  'non leap year') % yeardays)
+                            outdate = (
+                                datetime(refyear + yearinc, 1, 1,
+                                         tzinfo=utc) +
+                                timedelta(days=float(dayinc)))
+                        out.append(outdate)
+                    out = np.array(out)
 
                 else:
                     out = refdate + \
